@@ -133,6 +133,70 @@ Proof.
   f_equal. f_equal. f_equal. field. lra.
 Qed.
 
+(* Liou's form of Snell's law for an absorbing medium: with N = n2/n1 = mr + i mi and w = N^2 - sin^2 t1,
+   qr2 = (|w| + Re w)/2 is the squared real part of sqrt w, and the real angle of refraction t2 satisfies
+   sin t2 * sqrt (sin^2 t1 + qr2) = sin t1   (tan t2 = sin t1 / Re sqrt(N^2 - sin^2 t1)). *)
+Lemma complex_sqrt_parts wre wim : let W := sqrt (wre ^ 2 + wim ^ 2) in
+  0 <= (W + wre) / 2 /\ 0 <= (W - wre) / 2 /\ (W + wre) / 2 - (W - wre) / 2 = wre /\
+  4 * ((W + wre) / 2) * ((W - wre) / 2) = wim ^ 2.
+Proof.
+  cbv zeta. set (W := sqrt (wre ^ 2 + wim ^ 2)).
+  assert (Ha : 0 <= wre ^ 2 + wim ^ 2) by nra.
+  assert (HW : 0 <= W) by apply sqrt_pos.
+  assert (HW2 : W * W = wre ^ 2 + wim ^ 2) by (apply sqrt_sqrt; exact Ha).
+  assert (H1 : - W <= wre <= W) by (split; nra).
+  repeat split; lra.
+Qed.
+
+Lemma snell_complex_liou n1 n2r n2i t : 0 < n1 -> 0 < n2r -> 0 <= t <= 90 ->
+  let s := sin (t * PI / 180) in
+  let wre := (n2r / n1) ^ 2 - (n2i / n1) ^ 2 - s * s in
+  let wim := 2 * (n2r / n1) * (n2i / n1) in
+  let qr2 := (sqrt (wre ^ 2 + wim ^ 2) + wre) / 2 in
+  0 < s * s + qr2 /\
+  sin (snell_complex_n2 n1 n2r n2i t * PI / 180) * sqrt (s * s + qr2) = s.
+Proof.
+  intros H1 H2 Ht. cbv zeta.
+  pose proof (sin_rad_range t Ht) as Hs. set (s := sin (t * PI / 180)) in *.
+  set (mr := n2r / n1). set (mi := n2i / n1).
+  assert (Hmr : 0 < mr) by (apply Rdiv_lt_0_compat; lra).
+  set (wre := mr ^ 2 - mi ^ 2 - s * s). set (wim := 2 * mr * mi).
+  destruct (complex_sqrt_parts wre wim) as (Hq & Hqi & _ & Hprod). cbv zeta in Hq, Hqi, Hprod.
+  set (W := sqrt (wre ^ 2 + wim ^ 2)) in *.
+  assert (Hpos : 0 < s * s + (W + wre) / 2).
+  { destruct (Req_dec mi 0) as [Hz|Hnz].
+    - (* real n2: wim = 0, W = |wre| *)
+      assert (Hw0 : wim = 0) by (unfold wim; rewrite Hz; ring).
+      destruct (Rle_lt_dec (mr ^ 2) (s * s)) as [Hle|Hlt].
+      + assert (0 < s * s) by nra. lra.
+      + assert (0 < wre) by (unfold wre; rewrite Hz; replace (0 ^ 2) with 0 by ring; lra).
+        assert (W = wre). { unfold W. rewrite Hw0. replace (wre ^ 2 + 0 ^ 2) with (Rsqr wre) by (unfold Rsqr; ring).
+                            apply sqrt_Rsqr. lra. }
+        nra.
+    - assert (Hw : 0 < wim ^ 2). { unfold wim. assert (0 < mi ^ 2) by (apply pow2_gt_0; exact Hnz). assert (0 < mr * mr) by (apply Rmult_lt_0_compat; lra).
+        replace ((2 * mr * mi) ^ 2) with (4 * ((mr * mr) * mi ^ 2)) by ring.
+        assert (0 < mr * mr * mi ^ 2) by (apply Rmult_lt_0_compat; assumption). lra. }
+      assert (0 < (W + wre) / 2).
+      { destruct (Rle_lt_dec ((W + wre) / 2) 0) as [Hle|Hlt]; [|exact Hlt].
+        assert ((W + wre) / 2 = 0) by lra. rewrite H in Hprod. lra. }
+      nra. }
+  split; [exact Hpos|].
+  unfold snell_complex_n2. cbv zeta. rewrite rad_deg. fold s mr mi.
+  replace ((mr ^ 2 - mi ^ 2 + s * s + sqrt ((mr ^ 2 - mi ^ 2 - s * s) ^ 2 + 4 * mr ^ 2 * mi ^ 2)) / 2)
+    with (s * s + (W + wre) / 2).
+  2:{ unfold W, wre, wim. replace ((2 * mr * mi) ^ 2) with (4 * mr ^ 2 * mi ^ 2) by ring. field. }
+  set (Nr := sqrt (s * s + (W + wre) / 2)).
+  assert (HNr : 0 < Nr) by (apply sqrt_lt_R0; exact Hpos).
+  assert (HNr2 : Nr * Nr = s * s + (W + wre) / 2) by (apply sqrt_sqrt; lra).
+  assert (Hle : s <= Nr).
+  { destruct (Rle_lt_dec s Nr) as [Hok|Hbad]; [exact Hok|]. nra. }
+  rewrite sin_asin.
+  - field. lra.
+  - split.
+    + apply Rle_trans with 0; [lra|]. apply Rmult_le_pos; [lra|left; apply Rinv_0_lt_compat; exact HNr].
+    + apply Rle_div_l; lra.
+Qed.
+
 (* ---------- Fresnel (real refractive indices) ---------- *)
 Lemma cos_rad_range t : 0 <= t <= 90 -> 0 <= cos (t * PI / 180).
 Proof. intros H. pose proof PI_RGT_0. apply cos_ge_0.
